@@ -375,6 +375,101 @@ Proof.
   exact (proj2 (unify_zip_unified P ls rs out H)).
 Qed.
 
+(* ---- after the cast requirement both branches have ONE full type per column *)
+Lemma combine_outs : forall (orig : list dtype) (outs : list (dtype * side)),
+  List.length orig = List.length outs -> map (fun p => fst (snd p)) (combine orig outs) = map fst outs.
+Proof.
+  induction orig as [|x xs IH]; intros [|o os] H; cbn [List.length] in H; try discriminate; [reflexivity|].
+  cbn [combine map fst snd]. f_equal. apply IH. lia.
+Qed.
+
+Lemma zip_no_left_is_left : forall P ls rs out, unify_zip P ls rs = Some out -> List.length ls = List.length rs ->
+  needs_cast SLeft out = false -> map fst out = ls.
+Proof.
+  intros P ls. induction ls as [|l ls' IH]; intros [|r rs'] out H Hlen Hn; cbn [List.length] in Hlen; try discriminate.
+  - cbn [unify_zip] in H. injection H as H. subst out. reflexivity.
+  - cbn [unify_zip] in H. destruct (unify1 P l r) as [x|] eqn:E1; [|discriminate].
+    destruct (unify_zip P ls' rs') as [xs|] eqn:E2; [|discriminate]. injection H as H. subst out.
+    unfold needs_cast in Hn. cbn [existsb] in Hn. apply orb_false_iff in Hn. destruct Hn as [Hx Hxs].
+    cbn [map]. f_equal; [|apply (IH rs' xs E2); [lia|exact Hxs]].
+    pose proof (unify1_unified P l r x E1) as U. unfold unified in U. unfold side_is in Hx.
+    destruct (snd x); [exact (proj1 U)|discriminate|exact (proj1 U)].
+Qed.
+
+Lemma zip_no_right_is_right : forall P ls rs out, unify_zip P ls rs = Some out -> List.length ls = List.length rs ->
+  needs_cast SRight out = false -> map fst out = rs.
+Proof.
+  intros P ls. induction ls as [|l ls' IH]; intros [|r rs'] out H Hlen Hn; cbn [List.length] in Hlen; try discriminate.
+  - cbn [unify_zip] in H. injection H as H. subst out. reflexivity.
+  - cbn [unify_zip] in H. destruct (unify1 P l r) as [x|] eqn:E1; [|discriminate].
+    destruct (unify_zip P ls' rs') as [xs|] eqn:E2; [|discriminate]. injection H as H. subst out.
+    unfold needs_cast in Hn. cbn [existsb] in Hn. apply orb_false_iff in Hn. destruct Hn as [Hx Hxs].
+    cbn [map]. f_equal; [|apply (IH rs' xs E2); [lia|exact Hxs]].
+    pose proof (unify1_unified P l r x E1) as U. unfold unified in U. unfold side_is in Hx.
+    destruct (snd x); [destruct U as [U1 U2]; congruence|exact (proj1 U)|discriminate].
+Qed.
+
+Lemma zip_casts_castable : forall P ls rs out, unify_zip P ls rs = Some out ->
+  (forall f t, In (f, t) (filter (fun p => negb (dtype_eqb (fst p) (snd p))) (map (fun p => (fst p, fst (snd p))) (combine ls out))) -> castable P f t) /\
+  (forall f t, In (f, t) (filter (fun p => negb (dtype_eqb (fst p) (snd p))) (map (fun p => (fst p, fst (snd p))) (combine rs out))) -> castable P f t).
+Proof.
+  intros P ls. induction ls as [|l ls' IH]; intros rs out H.
+  - cbn [unify_zip] in H. injection H as H. subst out. split; intros f t Hin; [contradiction|].
+    destruct rs; contradiction.
+  - destruct rs as [|r rs'].
+    + cbn [unify_zip] in H. injection H as H. subst out. split; intros f t Hin; contradiction.
+    + cbn [unify_zip] in H. destruct (unify1 P l r) as [x|] eqn:E1; [|discriminate].
+      destruct (unify_zip P ls' rs') as [xs|] eqn:E2; [|discriminate]. injection H as H. subst out.
+      destruct (IH rs' xs E2) as [IL IR].
+      pose proof (unify1_unified P l r x E1) as U. unfold unified in U.
+      assert (Hrefl : forall a, dtype_eqb a a = true).
+      { intros [i m]. unfold dtype_eqb. cbn [d_id d_meta]. rewrite N.eqb_refl. cbn [andb].
+        induction m as [|z m IHm]; [reflexivity|]. cbn [zs_eqb]. rewrite Z.eqb_refl. exact IHm. }
+      split; intros f t Hin; cbn [combine map filter fst snd] in Hin.
+      * destruct (negb (dtype_eqb l (fst x))) eqn:EN.
+        -- destruct Hin as [Heq|Hin]; [|apply IL; exact Hin]. injection Heq as Hf Ht. subst f t.
+           destruct (snd x); [destruct U as [U1 _]; rewrite U1, Hrefl in EN; discriminate
+                             |destruct U as [U1 U2]; rewrite U1; exact U2
+                             |destruct U as [U1 _]; rewrite U1, Hrefl in EN; discriminate].
+        -- apply IL. exact Hin.
+      * destruct (negb (dtype_eqb r (fst x))) eqn:EN.
+        -- destruct Hin as [Heq|Hin]; [|apply IR; exact Hin]. injection Heq as Hf Ht. subst f t.
+           destruct (snd x); [destruct U as [U1 U2]; rewrite U1, U2, Hrefl in EN; discriminate
+                             |destruct U as [U1 _]; rewrite U1, Hrefl in EN; discriminate
+                             |destruct U as [U1 U2]; rewrite U1; exact U2].
+        -- apply IR. exact Hin.
+Qed.
+
+(* accepted => after the cast requirement BOTH branches have exactly the announced full data types (ids and
+   parameters), and every cast the projections contain is one the score table allows implicitly *)
+Theorem union_branches_one_type : forall P ls rs out,
+  unify_cols P ls rs = Some out ->
+  branch_after ls out (needs_cast SLeft out) = map fst out /\
+  branch_after rs out (needs_cast SRight out) = map fst out /\
+  (forall f t, In (f, t) (casts_inserted ls out (needs_cast SLeft out)) -> castable P f t) /\
+  (forall f t, In (f, t) (casts_inserted rs out (needs_cast SRight out)) -> castable P f t).
+Proof.
+  intros P ls rs out H. destruct (union_arity_checked P ls rs out H) as [Hlen Hout].
+  unfold unify_cols in H. destruct (Nat.eqb (List.length ls) (List.length rs)); [|discriminate].
+  destruct (zip_casts_castable P ls rs out H) as [CL CR].
+  unfold branch_after, casts_inserted.
+  split; [|split; [|split]].
+  - destruct (needs_cast SLeft out) eqn:E; [apply combine_outs; lia|].
+    symmetry. eapply zip_no_left_is_left; eassumption.
+  - destruct (needs_cast SRight out) eqn:E; [apply combine_outs; lia|].
+    symmetry. eapply zip_no_right_is_right; eassumption.
+  - destruct (needs_cast SLeft out); [exact CL|intros f t []].
+  - destruct (needs_cast SRight out); [exact CR|intros f t []].
+Qed.
+
+(* DECIMAL(10,2) UNION DECIMAL(12,4): same id, different parameters -> one side is cast, the output is one full type *)
+Lemma union_decimal_src : on_src (fun P =>
+  match unify_cols P [{| d_id := 17; d_meta := [10; 2]%Z |}] [{| d_id := 17; d_meta := [12; 4]%Z |}] with
+  | Some [(t, SRight)] => dtype_eqb t {| d_id := 17; d_meta := [10; 2]%Z |}
+  | _ => false
+  end) = true.
+Proof. vm_compute. reflexivity. Qed.
+
 Definition ex_l : list dtype := [{| d_id := 6; d_meta := [] |}].
 Definition ex_r : list dtype := [{| d_id := 7; d_meta := [] |}].
 Lemma union_src : on_src (fun P => match unify_cols P ex_l ex_r with Some [(_, SLeft)] => true | _ => false end) = true.
